@@ -14,7 +14,9 @@ pub open spec fn gstep(a: &LuaParser, b: &LuaParser) -> bool {
     &&& b.token_index >= a.token_index
     &&& b.tokens@.len() == a.tokens@.len()
     &&& ranges(b.tokens@) == ranges(a.tokens@)
-    &&& b.parse_config == a.parse_config
+    // (was `b.parse_config == a.parse_config`: not derivable after any marker call, because the generic marker API (P: MarkerEventContainer)
+    //  frames only sp_rest(), whose `doc` component is sp_support_doc(&parse_config); doc_mode is all parse_chunk's proof uses)
+    &&& doc_mode(b) == doc_mode(a)
     &&& ev_mono(a.events@, b.events@)
     &&& b.mark_level >= a.mark_level
     &&& (l3::events_ok(a.events@) ==> l3::events_ok(b.events@))
@@ -48,5 +50,115 @@ pub proof fn lemma_gstep_trans(a: &LuaParser, b: &LuaParser, c: &LuaParser)
 pub proof fn lemma_live_step(m: &Marker, a: &LuaParser, b: &LuaParser)
     requires m_live(m, a), gstep(a, b),
     ensures m_live(m, b),
+{
+}
+
+// ---- appended by the stat side (c02_gstat) --------------------------------------------------------------------------------
+/// first index >= i that does not hold a trivia token (`i` itself at or past the end): what `LuaParser::skip_trivia` computes
+pub open spec fn next_nt(t: Seq<LuaTokenData>, i: int) -> int
+    decreases t.len() - i
+{
+    if i >= t.len() { i } else if sp_trivia(t[i].kind) { next_nt(t, i + 1) } else { i }
+}
+
+/// result of `LuaParser::peek_next_token` at cursor `i`: kind of the next non-trivia token, `None` at the end of the stream
+pub open spec fn sp_peek(t: Seq<LuaTokenData>, i: int) -> LuaTokenKind {
+    let n = next_nt(t, i + 1);
+    if 0 <= n < t.len() { t[n].kind } else { LuaTokenKind::None }
+}
+
+/// uniqueness of what the contract of `skip_trivia` describes
+pub proof fn lemma_next_nt(t: Seq<LuaTokenData>, a: int, b: int)
+    requires
+        0 <= a <= b,
+        forall|j: int| a <= j < b ==> sp_trivia(#[trigger] t[j].kind),
+        b < t.len() ==> !sp_trivia(t[b].kind),
+        a >= t.len() ==> b == a,
+        a < t.len() ==> b <= t.len(),
+    ensures
+        next_nt(t, a) == b,
+    decreases b - a,
+{
+    if a < b {
+        assert(sp_trivia(t[a].kind));
+        lemma_next_nt(t, a + 1, b);
+    }
+}
+
+/// `next_nt` looks at the tokens from `i` on only
+pub proof fn lemma_next_nt_frame(t: Seq<LuaTokenData>, u: Seq<LuaTokenData>, i: int)
+    requires
+        t.len() == u.len(),
+        0 <= i,
+        forall|j: int| i <= j < t.len() ==> #[trigger] u[j] == t[j],
+    ensures
+        next_nt(u, i) == next_nt(t, i),
+        i <= next_nt(t, i),
+        i < t.len() ==> next_nt(t, i) <= t.len(),
+    decreases t.len() - i,
+{
+    if i < t.len() {
+        assert(u[i] == t[i]);
+        if sp_trivia(t[i].kind) {
+            lemma_next_nt_frame(t, u, i + 1);
+        }
+    }
+}
+
+/// GLOBAL INVARIANT of the grammar (requires + ensures of every grammar fn): no token at or after the cursor has one of the two
+/// soft-keyword kinds that `parse_stat` dispatches on without a guarantee of progress (`TkContinue`, `TkConst`). The lexer never
+/// emits them; the grammar writes them with `set_current_token_kind` immediately before the `bump` that consumes the token.
+pub open spec fn nosoft(p: &LuaParser) -> bool {
+    forall|j: int| p.token_index <= j < p.tokens@.len() ==> !((#[trigger] p.tokens@[j]).kind is TkContinue) && !(p.tokens@[j].kind is TkConst)
+}
+
+/// no progress => the kind of the current token is unchanged (every `set_current_token_kind` is followed by a `bump`)
+pub open spec fn gkeep(a: &LuaParser, b: &LuaParser) -> bool {
+    b.token_index == a.token_index ==> b.current_token == a.current_token
+}
+
+/// the variant set of `is_statement_start_token`, spelled out
+pub open spec fn sp_stat_start(k: LuaTokenKind) -> bool {
+    k is TkLocal || k is TkFunction || k is TkIf || k is TkFor || k is TkWhile || k is TkDo || k is TkName || k is TkReturn
+        || k is TkBreak || k is TkContinue
+}
+
+/// the variant set of `block_follow`, spelled out
+pub open spec fn sp_block_follow(k: LuaTokenKind) -> bool {
+    k is TkElse || k is TkElseIf || k is TkEnd || k is TkEof || k is TkUntil
+}
+
+/// strict progress: at least one token consumed
+pub open spec fn gprog(a: &LuaParser, b: &LuaParser) -> bool { b.token_index > a.token_index }
+
+/// under the parser invariant, "not at the end of the token stream" is the same as "the current token is not TkEof"
+pub proof fn lemma_not_eof(p: &LuaParser)
+    requires ginv(p),
+    ensures (p.token_index < p.tokens@.len()) == !(p.current_token is TkEof),
+{
+}
+
+// ---- appended by the expr side (c02_gexpr) --------------------------------------------------------------------------------
+/// the event list starts with a `NodeStart` (the `Block` marker of `parse_chunk`): `CompleteMarker::precede` on an INVALID
+/// CompleteMarker (`start == 0`: result of completing an empty node, or `CompleteMarker::empty()`) rewrites `events[0]`.
+/// Established by `parse_chunk` before it calls the grammar, preserved by `gstep` (`ev_mono`): a precondition of the grammar fns.
+pub open spec fn gfirst(p: &LuaParser) -> bool {
+    p.events@.len() > 0 && p.events@[0] is NodeStart
+}
+
+/// a CompleteMarker on which `precede` may be called: `events[start]` is a `NodeStart`
+pub open spec fn cm_live(cm: &CompleteMarker, p: &LuaParser) -> bool {
+    cm.start < p.events@.len() && p.events@[cm.start as int] is NodeStart
+}
+
+pub proof fn lemma_first_step(a: &LuaParser, b: &LuaParser)
+    requires gfirst(a), gstep(a, b),
+    ensures gfirst(b),
+{
+}
+
+pub proof fn lemma_cm_live_step(cm: &CompleteMarker, a: &LuaParser, b: &LuaParser)
+    requires cm_live(cm, a), gstep(a, b),
+    ensures cm_live(cm, b),
 {
 }
